@@ -624,15 +624,50 @@ func runLargeSets(c *ctx) {
 
 		return true
 	}
-	// Growth in a scattered order.
-	for i := 0; i < n; i++ {
-		v := (i * 7919) % n
-		ms.Add(v)
-		ss.Add(v)
-		model[v] = true
-	}
-	if !check("after growth") {
-		return
+	if tp.Bool(1, 2) {
+		// Constructed from a large input: ascending, descending, scattered
+		// or in blocks, with every dupEvery-th value given twice.
+		shape, dupEvery := tp.Choose(4), tp.Range(1, 50)
+		input := make([]int, 0, n+n/dupEvery+1)
+		for i := 0; i < n; i++ {
+			v := i
+			switch shape {
+			case 1:
+				v = n - 1 - i
+			case 2:
+				v = (i * 7919) % n
+			case 3:
+				v = i / 3 * 3
+			}
+			input = append(input, v)
+			if i%dupEvery == 0 {
+				input = append(input, v)
+			}
+			model[v] = true
+		}
+		given := slices.Clone(input)
+		ms = container.NewMapSet(given...)
+		if !slices.Equal(given, input) {
+			rc.Fail("input-modified", "NewMapSet", "NewMapSet changed the slice it was given")
+
+			return
+		}
+		ss = container.NewSortedSliceSet(given...)
+		rc.Stats.Probe("large-constructor-input")
+		if !check("after construction from " + kernel.Itoa(len(input)) + " values (shape " + kernel.Itoa(shape) + ")") {
+			return
+		}
+	} else {
+		// Growth in a scattered order.
+		for i := 0; i < n; i++ {
+			v := (i * 7919) % n
+			ms.Add(v)
+			ss.Add(v)
+			model[v] = true
+		}
+		if !check("after growth") {
+			return
+		}
 	}
 	if tp.Bool(1, 3) {
 		// Clear while large, then reuse.
